@@ -14,7 +14,10 @@
 EXTENDS Service, TLC, Json
 
 CONSTANTS MaxSvc, MaxOps, MaxFaults, ReqPorts, Kinds, MaxCalls,
-          WideView   \* TRUE: states reached by different last operations are kept apart (more scenarios)
+          WideView,  \* TRUE: states reached by different last operations are kept apart (more scenarios)
+          EnvActions,\* TRUE: the environment may kill / respawn the process of a service between operations [C19-1]
+          Offsets2   \* [C19-2] a second port option of another kind in the same Add: its range starts at
+                     \* port + off, off \in Offsets2 (off < cnt: the two ranges overlap ACROSS kinds); {} = none
 
 VARIABLES reg, os, budget, steps, bad,    \* the state proper (the VIEW)
           hist, lastx, calls              \* history: how this state was first reached
@@ -22,15 +25,24 @@ vars == <<reg, os, budget, steps, bad, hist, lastx, calls>>
 View == IF WideView /\ hist # <<>> THEN <<reg, os, budget, steps, bad, hist[Len(hist)]>>
         ELSE <<reg, os, budget, steps, bad>>
 
-Ops(r) ==
-         {[op |-> "Add", svc |-> 0, cnt |-> n, port |-> p, kind |-> kd, start |-> FALSE] :
+None2 == [port2 |-> 0, kind2 |-> ""]
+Ops(r, o_s) ==
+         {[op |-> "Add", svc |-> 0, cnt |-> n, port |-> p, kind |-> kd, start |-> FALSE, port2 |-> 0, kind2 |-> ""] :
               n \in {m \in 1..2 : Len(r) + m <= MaxSvc}, p \in ReqPorts, kd \in Kinds}
-    \cup {[op |-> "Add", svc |-> 0, cnt |-> n, port |-> 0, kind |-> "node", start |-> FALSE] :
+    \cup {x \in {[op |-> "Add", svc |-> 0, cnt |-> n, port |-> p, kind |-> kd, start |-> FALSE, port2 |-> p + off, kind2 |-> k2] :
+                      n \in {m \in 1..2 : Len(r) + m <= MaxSvc}, p \in ReqPorts, kd \in Kinds, k2 \in Kinds, off \in Offsets2} :
+              x.kind2 # x.kind}
+    \cup {[op |-> "Add", svc |-> 0, cnt |-> n, port |-> 0, kind |-> "node", start |-> FALSE, port2 |-> 0, kind2 |-> ""] :
               n \in {m \in 1..2 : Len(r) + m <= MaxSvc}}
-    \cup {[op |-> o, svc |-> i, cnt |-> 0, port |-> 0, kind |-> "", start |-> FALSE] :
+    \cup {[op |-> o, svc |-> i, cnt |-> 0, port |-> 0, kind |-> "", start |-> FALSE, port2 |-> 0, kind2 |-> ""] :
               o \in {"Start", "Stop", "Remove"}, i \in DOMAIN r}
-    \cup {[op |-> "Upgrade", svc |-> i, cnt |-> 0, port |-> 0, kind |-> "", start |-> sf] :
+    \cup {[op |-> "Upgrade", svc |-> i, cnt |-> 0, port |-> 0, kind |-> "", start |-> sf, port2 |-> 0, kind2 |-> ""] :
               i \in DOMAIN r, sf \in BOOLEAN}
+    \cup (IF ~EnvActions THEN {} ELSE
+             {[op |-> "Kill", svc |-> i, cnt |-> 0, port |-> 0, kind |-> "", start |-> FALSE, port2 |-> 0, kind2 |-> ""] :
+                  i \in {j \in DOMAIN r : Live(o_s, r[j].dir)}}
+        \cup {[op |-> "Respawn", svc |-> i, cnt |-> 0, port |-> 0, kind |-> "", start |-> FALSE, port2 |-> 0, kind2 |-> ""] :
+                  i \in {j \in DOMAIN r : CanRespawn(r, o_s, j)}})
 
 FaultSets(b) == {F \in SUBSET (1..MaxCalls) : Cardinality(F) <= b}
 
@@ -44,7 +56,9 @@ Init == /\ reg = <<>> /\ os = EmptyOs /\ budget = MaxFaults /\ steps = 0 /\ bad 
 
 Step(o, F) ==
     LET r == Exec(o, [reg |-> reg, os |-> os, k |-> 0, F |-> F, res |-> "run"])
-        e == [op |-> o.op, svc |-> o.svc, res |-> r.res, req |-> ReqSet(o.cnt, o.port), reload_eq |-> TRUE]
+        e == [op |-> o.op, svc |-> o.svc, res |-> r.res, req |-> ReqSet(o.cnt, o.port) \cup ReqSet(o.cnt, o.port2),
+              reload_eq |-> TRUE,
+              refreshed |-> Refreshed(o, [reg |-> reg, os |-> os, k |-> 0, F |-> F, res |-> "run"])]
         fals == C19_Falsified(Proj(reg, os), e, Proj(r.reg, r.os))
     IN /\ \A f \in F : f <= r.k            \* every scripted fault is reached by this operation
        /\ r.k <= MaxCalls
@@ -54,11 +68,12 @@ Step(o, F) ==
        /\ bad' = bad \cup fals
        /\ calls' = calls + r.k
        /\ hist' = Append(hist, [op |-> o.op, svc |-> o.svc, cnt |-> o.cnt, port |-> o.port, kind |-> o.kind,
-                                start |-> o.start, faults |-> SetToSeq({calls + f : f \in F})])
+                                start |-> o.start, port2 |-> o.port2, kind2 |-> o.kind2,
+                                faults |-> SetToSeq({calls + f : f \in F})])
        /\ lastx' = [ncalls |-> r.k, res |-> r.res, mv |-> SetToSeq(fals), exp |-> Expected(r)]
 
 Next == /\ steps < MaxOps
-        /\ \E o \in Ops(reg), F \in FaultSets(budget) : Step(o, F)
+        /\ \E o \in Ops(reg, os), F \in FaultSets(budget) : Step(o, F)
 Spec == Init /\ [][Next]_vars
 
 TypeOK == /\ \A i \in DOMAIN reg : reg[i].st \in Statuses
